@@ -228,7 +228,7 @@ def case(spec):
         elif kind == 'twosided':
             # two-sided non-interleaved .ssd/.sdd: side 0 then side 1 (doc/dfs.1: "1 or 2 sides")
             spt = rng.choice([10, 18])
-            tracks = rng.choice([40, 80]) if spt == 10 else 40
+            tracks = rng.choice([35, 40, 80]) if spt == 10 else rng.choice([35, 40])
             tot = tracks * spt
             s0 = dm.gen_surface(rng, variant='acorn', spt=spt, total=tot, tracks=tracks, sid=0, maxlen_sectors=20)
             s1 = dm.gen_surface(rng, variant='acorn', spt=spt, total=tot, tracks=tracks, sid=1, maxlen_sectors=20)
